@@ -704,6 +704,8 @@ func checkHistory(kind string, h []hop) bool {
 		model = setKeyModel
 	case "hist-diff":
 		model = diffKeyModel
+	case "hist-window":
+		model = windowModel
 	default:
 		model = mapKeyModel
 	}
@@ -715,15 +717,17 @@ var histFP = map[string]string{
 	"hist-set":    "linearizability:set-add-delete-has",
 	"hist-map":    "linearizability:orderedmap-set-get-has-delete",
 	"hist-diff":   "conservation:reported-diffs-not-consistent-per-element",
+	"hist-window": windowFP,
 }
 
 // linzChild runs n histories of each kind.
 func linzChild(c *vf.Ctx, idx, n int) {
 	var halfSeen, views atomic.Int64
+	var win windowStats
 	for i := 0; i < n; i++ {
 		seed := c.Seed*1000003 + int64(idx)*100003 + int64(i)
-		for _, kind := range []string{"hist-atomic", "hist-set", "hist-map", "hist-diff"} {
-			var h []hop
+		for _, kind := range []string{"hist-atomic", "hist-set", "hist-map", "hist-diff", "hist-window"} {
+			var h, withHas []hop
 			var ik, iw string
 			structure := "set"
 			switch kind {
@@ -737,6 +741,8 @@ func linzChild(c *vf.Ctx, idx, n int) {
 				h, ik, iw = setKeyHistory(seed)
 			case "hist-diff":
 				h, ik, iw = diffHistory(seed)
+			case "hist-window":
+				h, withHas, ik, iw = windowHistory(seed, &win)
 			default:
 				structure = "orderedmap"
 				h, ik, iw = mapKeyHistory(seed)
@@ -751,7 +757,13 @@ func linzChild(c *vf.Ctx, idx, n int) {
 			}
 			reportInvariant(c, structure, kind+" round", seed, ik, iw)
 			if !checkHistory(kind, h) {
-				c.Violation(histFP[kind], fmt.Sprintf("%s history of %d operations (seed %d) has no legal sequential order", kind, len(h), seed), histCase{Kind: kind, Seed: seed, History: h})
+				what := fmt.Sprintf("%s history of %d operations (seed %d) has no legal sequential order", kind, len(h), seed)
+				if kind == "hist-window" {
+					what = fmt.Sprintf("Add/Delete of one element e racing with one Apply/Compute/Replace (each taken as ONE atomic step, additions-first or deletions-first) has no legal order (seed %d): %s", seed, describeWindow(h))
+				}
+				c.Violation(histFP[kind], what, histCase{Kind: kind, Seed: seed, History: h})
+			} else if kind == "hist-window" && !checkHistory(kind, withHas) {
+				win.hasUnexplained++
 			}
 			if i == 0 && idx == 0 && kind == "hist-atomic" && !vfRace {
 				c.Sample(map[string]any{"kind": "recorded Apply/Compute/Replace history (masks over 4 pairs), accepted by porcupine", "history": h})
@@ -759,6 +771,11 @@ func linzChild(c *vf.Ctx, idx, n int) {
 		}
 	}
 	c.Count("compute_factory_views", int(views.Load()))
+	c.Count("window:add-delete-probes", win.probes)
+	c.Count("window:probes-overlapping-the-atomic-call", win.probesOverlapping)
+	c.Count("window:rounds-apply-adds-and-deletes-probe", win.sharpRounds)
+	c.Count("window:rounds-replace-keeps-probe", win.keptRounds)
+	c.Count("window:has-saw-inside-of-atomic-call(not judged)", win.hasUnexplained)
 }
 
 // mapStress: iteration and whole-map operations racing with single-key writes (for
